@@ -17,7 +17,8 @@
                                                   responder_rejects_order_two_identity
     never crashes ............................... discovery_total (every byte string), discovery_unguarded_panics_witness
                                                   (the guard is necessary), handshake_total_and_bounded, handler_size_limit
-    never allocates beyond the limits ........... frame_alloc_bound, frame_size_accounting, handshake_total_and_bounded,
+    a delivered message stays what it was ....... readMsg_payload_independent_of_later_frames (names the tie's obligation)
+    never allocates beyond the limits ........... discovery_decode_alloc_bounded, frame_alloc_bound, frame_size_accounting, handshake_total_and_bounded,
                                                   handler_size_limit, handler_decoder_input_bounded, proto_handshake_size_limit
   "never wedges" and panics outside the modelled expressions (Go runtime, rlp/ecies/snappy internals, goroutine
   lifecycles of p2p.Server) are exercised by the harness on the real code only (DESIGN 2.6).
@@ -182,6 +183,109 @@ example : ∃ pkt hash, encodePacket (fun x => (x ++ List.replicate 32 0).take 3
       by intro r hr; simp only [List.mem_singleton] at hr; subst hr; intro rest; simp [rRaw, readHead]⟩
     (by decide)
 
+/-- `discovery_decode_alloc_bounded`: every buffer the typed RLP readers of the discovery decoder allocate from a length
+    prefix (`Stream.Bytes`: `make(size)`, `Stream.Raw`: `make(headsize+size)`) is at most the unread input, because the
+    size is compared with the remaining input (the stream's input limit = length of the signed data) BEFORE the `make`;
+    and every reader hands on a rest / list payload that is no longer than its own input, so the bound holds at every
+    nesting level of `decodeBody`: a datagram of n bytes makes the decoder allocate at most n bytes per value,
+    whatever its length prefixes claim. -/
+theorem discovery_decode_alloc_bounded (bs : Bytes) :
+    rBytesAlloc bs ≤ bs.length ∧ rRawAlloc bs ≤ bs.length ∧
+    (∀ v rest, rBytes bs = some (v, rest) → v.length ≤ bs.length ∧ rest.length ≤ bs.length) ∧
+    (∀ pl rest, rList bs = some (pl, rest) → pl.length ≤ bs.length ∧ rest.length ≤ bs.length) ∧
+    (∀ r rest, rRaw bs = some (r, rest) → r.length ≤ bs.length ∧ rest.length ≤ bs.length) ∧
+    (∀ k v rest, rUint k bs = some (v, rest) → rest.length ≤ bs.length) ∧
+    (∀ k v rest, rArray k bs = some (v, rest) → v.length ≤ bs.length ∧ rest.length ≤ bs.length) := by
+  refine ⟨?_, ?_, ?_, ?_, ?_, ?_, ?_⟩
+  · unfold rBytesAlloc
+    split
+    · rename_i n rest hh
+      obtain ⟨hbs, _⟩ := readHead_ok_str bs n rest hh
+      split
+      · omega
+      · rw [hbs]; simp; omega
+    · omega
+  · unfold rRawAlloc
+    split
+    · rename_i n rest hh
+      obtain ⟨hbs, _⟩ := readHead_ok_str bs n rest hh
+      split
+      · omega
+      · rw [hbs]; simp; omega
+    · rename_i n rest hh
+      obtain ⟨hbs, _⟩ := readHead_ok_list bs n rest hh
+      split
+      · omega
+      · rw [hbs]; simp; omega
+    · omega
+  · intro v rest h
+    unfold rBytes at h
+    split at h
+    · rename_i b r hh
+      obtain ⟨hbs, _⟩ := readHead_ok_byte bs b r hh
+      injection h with h; injection h with h1 h2
+      rw [← h1, ← h2, hbs]; simp
+    · rename_i n r hh
+      obtain ⟨hbs, _⟩ := readHead_ok_str bs n r hh
+      have hh' := header_length_pos 0x80 n
+      split at h
+      · cases h
+      · split at h
+        · split at h
+          · cases h
+          · injection h with h; injection h with h1 h2
+            rw [← h1, ← h2, hbs]; simp; omega
+        · injection h with h; injection h with h1 h2
+          rw [← h1, ← h2, hbs]; simp; omega
+    · cases h
+  · intro pl rest h
+    unfold rList at h
+    split at h
+    · rename_i n r hh
+      obtain ⟨hbs, _⟩ := readHead_ok_list bs n r hh
+      split at h
+      · cases h
+      · injection h with h; injection h with h1 h2
+        rw [← h1, ← h2, hbs]; simp; omega
+    · cases h
+  · intro r rest h
+    unfold rRaw at h
+    split at h
+    · rename_i b r' hh
+      obtain ⟨hbs, _⟩ := readHead_ok_byte bs b r' hh
+      injection h with h; injection h with h1 h2
+      rw [← h1, ← h2, hbs]; simp
+    · rename_i n r' hh
+      obtain ⟨hbs, _⟩ := readHead_ok_str bs n r' hh
+      split at h
+      · cases h
+      · injection h with h; injection h with h1 h2
+        rw [← h1, ← h2, hbs]; simp; omega
+    · rename_i n r' hh
+      obtain ⟨hbs, _⟩ := readHead_ok_list bs n r' hh
+      split at h
+      · cases h
+      · injection h with h; injection h with h1 h2
+        rw [← h1, ← h2, hbs]; simp; omega
+    · cases h
+  · intro k v rest h
+    exact rUint_rest_le k bs v rest h
+  · intro k v rest h
+    unfold rArray at h
+    split at h
+    · rename_i n r hh
+      obtain ⟨hbs, _⟩ := readHead_ok_str bs n r hh
+      split at h
+      · cases h
+      · split at h
+        · cases h
+        · injection h with h; injection h with h1 h2
+          rw [← h1, ← h2, hbs]; simp; omega
+    · cases h
+
+/-- non-vacuity: a 200-byte string header followed by 3 bytes allocates nothing; a fitting one allocates its size. -/
+example : rBytesAlloc [0xb8, 200, 1, 2, 3] = 0 ∧ rBytesAlloc [0x83, 1, 2, 3] = 3 ∧ rRawAlloc [0xc2, 1, 2, 9] = 3 := by decide
+
 /-! ## RLPx frames -/
 
 /-- `frame_roundtrip`: for every sequence of messages (any codes, any payloads that fit, with or without snappy) and every
@@ -228,6 +332,33 @@ example : ∃ d' w, writeAll P0 true d0 ms0 = .ok (d', w) ∧ readN P0 true 2 d0
   | err e => simp [h, Out.isOk] at hok
   | panic p => simp [h, Out.isOk] at hok
 example : (writeAll P0 false d0 ms0).isOk = true := by decide
+
+/-- `readMsg_payload_independent_of_later_frames`: a delivered message is a value — reading further frames afterwards
+    does not change it. In the model this is immediate (payloads are lists, not buffers); it is stated to NAME the
+    obligation that the tie carries for the Go code, where `Msg.Payload` is a reader over a buffer: the harness holds
+    3–6 delivered Msgs unconsumed while it keeps calling ReadMsg (and does the same through Peer.readLoop with a slow
+    protocol handler and pings in between) and requires every payload to be unchanged when it is finally consumed. -/
+theorem readMsg_payload_independent_of_later_frames (P : Prims) (snappy : Bool) (n : Nat) (d d' : Dir) (conn rest : Bytes)
+    (m : Msg) (ms : List Msg) (h : readN P snappy (n + 1) d conn = .ok (d', m :: ms, rest)) :
+    ∃ d1 c1, readMsg P snappy d conn = .ok (d1, m, c1) ∧ readN P snappy n d1 c1 = .ok (d', ms, rest) := by
+  simp only [readN] at h
+  cases h1 : readMsg P snappy d conn with
+  | err e => simp [h1] at h
+  | panic p => simp [h1] at h
+  | ok r =>
+    obtain ⟨d1, m1, c1⟩ := r
+    simp only [h1] at h
+    cases h2 : readN P snappy n d1 c1 with
+    | err e => simp [h2] at h
+    | panic p => simp [h2] at h
+    | ok r2 =>
+      obtain ⟨d2, ms2, c2⟩ := r2
+      simp only [h2] at h
+      injection h with h
+      injection h with ha hb
+      injection hb with hb hc
+      injection hb with hm hms
+      exact ⟨d1, c1, by rw [hm], by rw [h2, ha, hms, hc]⟩
 
 /-- every strict prefix of a written frame is refused with a read error (never delivered, never a panic). -/
 theorem frame_truncation_rejected (P : Prims) (hw : Wf P) (snappy : Bool) (hs : snappy = true → SnappyOk P) (d d' : Dir) (m : Msg)
